@@ -688,8 +688,6 @@ fn decode_event_report(b: &[u8], r: &El) -> String {
 
 struct Chunk {
     text: String,
-    more: bool,
-    suppress: bool,
 }
 
 fn decode_chunk(c: &Case, b: &[u8], next_idx: &mut std::collections::BTreeMap<(u16, u32, u32), usize>) -> Chunk {
@@ -776,8 +774,6 @@ fn decode_chunk(c: &Case, b: &[u8], next_idx: &mut std::collections::BTreeMap<(u
     }
     Chunk {
         text: format!("{}:{}:{}:{}", b.len(), flags, attrs.join(","), events.join(",")),
-        more,
-        suppress,
     }
 }
 
@@ -926,7 +922,7 @@ fn run_case(c: &Case) -> String {
         match select3(
             core::pin::pin!(device),
             core::pin::pin!(client),
-            core::pin::pin!(Timer::after(Duration::from_secs(15))),
+            core::pin::pin!(Timer::after(Duration::from_secs(6))),
         )
         .await
         {
@@ -988,7 +984,464 @@ fn main() {
     }
 }
 
-fn gen(_tier: &str, seed: u64, _outdir: &str) {
-    let _ = Rng::new(seed);
-    unimplemented!()
+// Sizes as the generator needs them to steer towards the boundaries (the model has its own
+// definitions in Model/Chunk.v; a mistake here only makes the streams miss their targets).
+fn uint_len(v: u64) -> usize {
+    if v < 256 {
+        1
+    } else if v < 65536 {
+        2
+    } else if v < (1 << 32) {
+        4
+    } else {
+        8
+    }
+}
+fn str_hdr(l: usize) -> usize {
+    if l < 256 {
+        1
+    } else {
+        2
+    }
+}
+/// size of the report of an octet string of `len` bytes at (ep, cl, at) with data version dv
+fn scalar_report(ep: u16, cl: u32, at: u32, dv: u32, len: usize) -> usize {
+    let path = 2 + (2 + uint_len(ep as u64)) + (2 + uint_len(cl as u64)) + (2 + uint_len(at as u64)) + 1;
+    1 + 2 + (2 + uint_len(dv as u64)) + path + (2 + str_hdr(len) + len) + 2
+}
+/// the octet-string length whose report has exactly `size` bytes (None if impossible)
+fn len_for_report(ep: u16, cl: u32, at: u32, dv: u32, size: usize) -> Option<usize> {
+    let base = scalar_report(ep, cl, at, dv, 0) - 1; // without the length byte
+    for hdr in [1usize, 2] {
+        if size >= base + hdr {
+            let len = size - base - hdr;
+            if str_hdr(len) == hdr && len < 60000 {
+                return Some(len);
+            }
+        }
+    }
+    None
+}
+fn event_report(ep: u16, cl: u32, ev: u32, num: u64, ts: u64, len: usize) -> usize {
+    let path = 2 + (2 + uint_len(ep as u64)) + (2 + uint_len(cl as u64)) + (2 + uint_len(ev as u64)) + 1;
+    1 + 2 + path + (2 + uint_len(num)) + 3 + (2 + uint_len(ts)) + (2 + str_hdr(len) + len) + 2
+}
+
+struct Gen {
+    rng: Rng,
+    lines: Vec<String>,
+    streams: std::collections::BTreeMap<String, usize>,
+    tx: usize,
+}
+
+#[derive(Clone, Default)]
+struct CaseB {
+    sub: bool,
+    n: Vec<String>,
+    q: String,
+    f: String,
+    e: Vec<String>,
+    p: String,
+    m: String,
+}
+
+impl Gen {
+    fn emit(&mut self, stream: &str, c: &CaseB) {
+        let id = format!("{}{}", &stream[..1], self.lines.len());
+        *self.streams.entry(stream.to_string()).or_insert(0) += 1;
+        let e = if c.e.is_empty() { "-".to_string() } else { c.e.join(",") };
+        self.lines.push(format!(
+            "R {} k={} n={} q={} f={} e={} p={} m={} lim=200 tx={} rs={}",
+            id,
+            if c.sub { "s" } else { "r" },
+            c.n.join(";"),
+            if c.q.is_empty() { "-" } else { &c.q },
+            if c.f.is_empty() { "-" } else { &c.f },
+            e,
+            if c.p.is_empty() { "-" } else { &c.p },
+            if c.m.is_empty() { "-" } else { &c.m },
+            self.tx,
+            RESERVE
+        ));
+    }
+    /// what an empty reply can take (after the struct opener, the subscription id and one array opener)
+    fn fresh_room(&self, sub: bool) -> usize {
+        self.tx - RESERVE - (if sub { 4 } else { 1 }) - 2
+    }
+}
+
+fn gen(tier: &str, seed: u64, outdir: &str) {
+    let thorough = tier == "thorough";
+    let mut g = Gen {
+        rng: Rng::new(seed ^ 0xC14),
+        lines: Vec::new(),
+        streams: Default::default(),
+        tx: MAX_EXCHANGE_TX_BUF_SIZE,
+    };
+
+    // --- stream b1: one value swept across "fits an empty message" (exhaustive -8..+4), read / subscribe,
+    //     with and without an event request (which needs 3 more structural bytes from the reserve)
+    for sub in [false, true] {
+        for with_ev in [false, true] {
+            for d in -8i64..=4 {
+                let target = (g.fresh_room(sub) as i64 + d) as usize;
+                let len = len_for_report(0, 100, 0, 7, target).unwrap();
+                let c = CaseB {
+                    sub,
+                    n: vec![format!("0.100.7:0=s{}", len)],
+                    q: "0.100.0".into(),
+                    p: if with_ev { "*.*.*".into() } else { String::new() },
+                    ..Default::default()
+                };
+                g.emit("b1-single-boundary", &c);
+            }
+        }
+    }
+
+    // --- stream b2: two values; the second one ends exactly d bytes from the end of the first message
+    for sub in [false, true] {
+        for first in [200usize, 577, 900, 1100] {
+            for d in -6i64..=6 {
+                let room = g.fresh_room(sub);
+                let l1 = len_for_report(0, 100, 0, 7, first).unwrap();
+                let rest = (room as i64 - first as i64 + d) as usize;
+                let Some(l2) = len_for_report(0, 100, 1, 7, rest) else { continue };
+                let c = CaseB {
+                    sub,
+                    n: vec![format!("0.100.7:0=s{},1=s{},2=s9", l1, l2)],
+                    q: "0.100.*".into(),
+                    ..Default::default()
+                };
+                g.emit("b2-pair-boundary", &c);
+            }
+        }
+    }
+
+    // --- stream b3: a list after a value: the complete list just fits / just does not (then it is streamed),
+    //     and element k ends exactly at / one byte over the end of a message
+    for sub in [false, true] {
+        for first in [300usize, 800] {
+            for nel in [1usize, 2, 5] {
+                for d in -4i64..=4 {
+                    let room = g.fresh_room(sub);
+                    let l1 = len_for_report(0, 100, 0, 7, first).unwrap();
+                    // whole-list report = 23 + 3 + sum(1 + hdr + len); aim it at room - first + d
+                    let target = room as i64 - first as i64 + d;
+                    let per = (target - 26) / nel as i64;
+                    if per < 4 {
+                        continue;
+                    }
+                    let mut lens = Vec::new();
+                    let mut acc = 26i64;
+                    for i in 0..nel {
+                        let want = if i + 1 == nel { target - acc } else { per };
+                        // element = 1 + hdr + len
+                        let len = if want - 2 < 256 { want - 2 } else { want - 3 };
+                        let len = len.max(0) as usize;
+                        acc += (1 + str_hdr(len) + len) as i64;
+                        lens.push(len.to_string());
+                    }
+                    let c = CaseB {
+                        sub,
+                        n: vec![format!("0.100.7:0=s{},1=l{},2=s12", l1, lens.join("+"))],
+                        q: "0.100.*".into(),
+                        ..Default::default()
+                    };
+                    g.emit("b3-list-boundary", &c);
+                }
+            }
+        }
+    }
+    for sub in [false, true] {
+        for d in -3i64..=3 {
+            // streamed list whose second element ends d bytes from the end of the first message
+            let room = g.fresh_room(sub) as i64;
+            // first value 500, marker 23, element reports 25 + 3 + len (len >= 256)
+            let l1 = len_for_report(0, 100, 0, 7, 500).unwrap();
+            let e1 = 300usize;
+            let used = 500 + 23 + (28 + e1 as i64);
+            let e2 = (room - used + d - 28) as usize;
+            let c = CaseB {
+                sub,
+                n: vec![format!("0.100.7:0=s{},1=l{}+{}+700+40", l1, e1, e2)],
+                q: "0.100.*".into(),
+                ..Default::default()
+            };
+            g.emit("b3-list-boundary", &c);
+        }
+    }
+
+    // --- stream l: lists longer than a message, several lists, empty lists, lists of many small elements
+    for sub in [false, true] {
+        for (k, spec) in [
+            "0=l600+600+600",
+            "0=l1100+1100+1100+1100",
+            "0=l,1=l5,2=l700+700,3=l",
+            "0=s900,1=l400+400+400,2=l300+300+300+300,3=s50",
+            "0=l200+200+200+200+200+200+200+200+200+200+200+200",
+            "0=s1000,1=l10+10+10+10+10+10+10+10+10+10+10+10+10+10+10+10+10+10+10+10",
+            "0=l1120,1=l1121,2=l1122,3=l1123,4=l1124",
+            "0=s400,1=l1120+5,2=s400,3=l5+1120",
+        ]
+        .iter()
+        .enumerate()
+        {
+            for q in ["0.100.*", "*.*.*"] {
+                let c = CaseB {
+                    sub,
+                    n: vec![format!("0.100.{}:{}", 7 + k, spec)],
+                    q: q.into(),
+                    ..Default::default()
+                };
+                g.emit("l-long-lists", &c);
+            }
+        }
+    }
+
+    // --- stream o: a single report larger than a whole message (value, list element, event): ResourceExhausted
+    for sub in [false, true] {
+        for over in [1usize, 2, 100] {
+            let big = len_for_report(0, 100, 1, 7, g.fresh_room(sub) + over).unwrap();
+            for spec in [
+                format!("0=s{}", big),
+                format!("0=s10,1=s{},2=s10", big),
+                format!("0=s700,1=s{},2=s10", big),
+                format!("0=s10,1=l600+{}+600", big),
+                format!("0=l{}", big),
+            ] {
+                let c = CaseB {
+                    sub,
+                    n: vec![format!("0.100.7:{}", spec)],
+                    q: "0.100.*".into(),
+                    ..Default::default()
+                };
+                g.emit("o-oversized", &c);
+            }
+            let elen = g.fresh_room(sub) + over - event_report(0, 100, 1, 2, 5, 300) + 300;
+            for (q, first) in [("0.100.*", 10usize), ("-", 10), ("0.100.*", 900)] {
+                let c = CaseB {
+                    sub,
+                    n: vec!["0.100.7:0=s10".replace("s10", &format!("s{}", first))],
+                    q: if q == "-" { String::new() } else { q.into() },
+                    e: vec!["0.100.1.2.10.5".into(), format!("0.100.1.2.{}.5", elen), "0.100.2.2.700.300".into()],
+                    p: "*.*.*".into(),
+                    ..Default::default()
+                };
+                g.emit("o-oversized", &c);
+            }
+        }
+    }
+
+    // --- stream e: events across the boundary, timestamps of every width, filters, paths, statuses
+    for sub in [false, true] {
+        for d in -5i64..=5 {
+            // attribute 600, event 1 small, event 2 ends d bytes from the end of the message
+            let room = g.fresh_room(sub) as i64;
+            let l1 = len_for_report(0, 100, 0, 7, 600).unwrap();
+            let used = 600 + 1 + 2 + event_report(0, 100, 1, 1, 5, 10) as i64;
+            let want = room + 2 - used + d; // the event array opener comes out of the reserve
+            let base = event_report(0, 100, 2, 2, 70000, 300) as i64 - 300;
+            let elen = (want - base).max(0) as usize;
+            let c = CaseB {
+                sub,
+                n: vec![format!("0.100.7:0=s{}", l1)],
+                q: "0.100.0".into(),
+                e: vec![
+                    "0.100.1.2.10.5".into(),
+                    format!("0.100.2.1.{}.70000", elen),
+                    "0.100.3.0.40.5000000000".into(),
+                ],
+                p: "*.*.*".into(),
+                ..Default::default()
+            };
+            g.emit("e-events", &c);
+        }
+        for (p, m) in [
+            ("*.*.*", "-"),
+            ("0.100.1", "-"),
+            // (a subscribe request with a concrete path that does not exist is refused as a whole with
+            //  InvalidAction before the responder runs: those paths are used for reads only)
+            (if sub { "0.100.1,0.100.2" } else { "0.100.1,0.100.5,0.101.1,7.100.1" }, "2,1"),
+            ("0.*.*,1.300.2", "3"),
+            ("*.300.*", "-"),
+            ("9.*.*", "-"),
+            ("0.100.1,0.100.1", "-"),
+        ] {
+            let c = CaseB {
+                sub,
+                n: vec!["0.100.7:0=s10".into(), "1.300.70000:0=s20".into()],
+                q: "*.*.*".into(),
+                e: vec![
+                    "0.100.1.2.600.5".into(),
+                    "0.100.2.1.600.300".into(),
+                    "1.300.2.0.600.70000".into(),
+                    "1.300.3.2.600.5000000000".into(),
+                    "0.100.5.2.30.7".into(),
+                    "2.100.1.2.30.7".into(),
+                    "0.100.1.2.600.9".into(),
+                ],
+                p: p.into(),
+                m: if m == "-" { String::new() } else { m.into() },
+                ..Default::default()
+            };
+            g.emit("e-events", &c);
+            // events only (no attribute requests)
+            let mut c2 = c.clone();
+            c2.q = String::new();
+            g.emit("e-events", &c2);
+        }
+    }
+
+    // --- stream f: data-version filters, several clusters / endpoints, id widths, missing concrete paths
+    for sub in [false, true] {
+        for f in ["-", "0.100.7", "0.100.8", "0.100.8,0.100.7", "1.300.70000,0.100.7", "1.300.70000", "0.100.7,1.300.70000,2.70000.300"] {
+            for q in [
+                "*.*.*",
+                "0.100.*,1.*.*",
+                if sub { "0.100.0,1.300.70000,2.70000.1" } else { "0.100.0,0.100.9,0.101.0,5.100.0,1.300.70000,2.70000.1" },
+                "*.300.*,*.100.*",
+            ] {
+                let c = CaseB {
+                    sub,
+                    n: vec![
+                        "0.100.7:0=s500,1=l300+300,2=s20".into(),
+                        "1.300.70000:5=s400,70000=l,300=l200+200+200".into(),
+                        "2.70000.300:0=s700,1=s300".into(),
+                    ],
+                    q: q.into(),
+                    f: if f == "-" { String::new() } else { f.into() },
+                    ..Default::default()
+                };
+                g.emit("f-filters", &c);
+            }
+        }
+    }
+
+    // --- stream r: random nodes and requests
+    let n_random = if thorough { 40000 } else { 2500 };
+    for _ in 0..n_random {
+        let sub = g.rng.chance(1, 3);
+        let room = g.fresh_room(sub);
+        let n_cl = g.rng.range(1, 3) as usize;
+        let eps = [0u16, 1, 300];
+        let cls = [100u32, 300, 70000];
+        let dvs = [7u32, 300, 70000, 4000000000];
+        let mut clusters: Vec<(u16, u32, u32, Vec<String>, Vec<u32>)> = Vec::new();
+        for i in 0..n_cl {
+            let ep = eps[i.min(2)];
+            let cl = *g.rng.pick(&cls);
+            if clusters.iter().any(|c| c.0 == ep && c.1 == cl) {
+                continue;
+            }
+            let dv = *g.rng.pick(&dvs);
+            let n_at = g.rng.range(1, 6) as usize;
+            let mut attrs = Vec::new();
+            let mut ids = Vec::new();
+            for a in 0..n_at {
+                let id = match g.rng.below(8) {
+                    0 => 300 + a as u32,
+                    1 => 70000 + a as u32,
+                    _ => a as u32,
+                };
+                ids.push(id);
+                let big = |g: &mut Gen| -> usize {
+                    match g.rng.below(25) {
+                        0..=7 => g.rng.range(0, 40) as usize,
+                        8..=14 => g.rng.range(100, 500) as usize,
+                        15..=21 => g.rng.range(500, 1100) as usize,
+                        22..=23 => room - g.rng.range(28, 48) as usize,
+                        _ => g.rng.range(1100, 1140) as usize,
+                    }
+                };
+                if g.rng.chance(2, 5) {
+                    let n_el = match g.rng.below(6) {
+                        0 => 0,
+                        1 => 1,
+                        _ => g.rng.range(2, 7),
+                    } as usize;
+                    let lens: Vec<String> = (0..n_el).map(|_| big(&mut g).to_string()).collect();
+                    attrs.push(format!("{}=l{}", id, lens.join("+")));
+                } else {
+                    attrs.push(format!("{}=s{}", id, big(&mut g)));
+                }
+            }
+            clusters.push((ep, cl, dv, attrs, ids));
+        }
+        let mut c = CaseB {
+            sub,
+            ..Default::default()
+        };
+        for (ep, cl, dv, attrs, _) in &clusters {
+            c.n.push(format!("{}.{}.{}:{}", ep, cl, dv, attrs.join(",")));
+        }
+        // request paths
+        let n_q = g.rng.range(1, 3);
+        let mut qs = Vec::new();
+        for _ in 0..n_q {
+            let (ep, cl, _, _, ids) = g.rng.pick(&clusters).clone();
+            qs.push(match g.rng.below(6) {
+                0 => "*.*.*".to_string(),
+                1 => format!("{}.*.*", ep),
+                2 => format!("{}.{}.*", ep, cl),
+                3 => format!("*.{}.*", cl),
+                // (a subscribe request with a concrete path that does not exist is refused as a whole)
+                4 if sub => format!("{}.{}.{}", ep, cl, g.rng.pick(&ids)),
+                4 => format!("{}.{}.{}", ep, cl, g.rng.below(3)),
+                _ => format!("{}.{}.*", ep, cl),
+            });
+        }
+        c.q = qs.join(",");
+        if g.rng.chance(1, 4) {
+            let (ep, cl, dv, _, _) = g.rng.pick(&clusters).clone();
+            c.f = format!("{}.{}.{}", ep, cl, if g.rng.chance(2, 3) { dv } else { dv.wrapping_add(1) });
+        }
+        if g.rng.chance(1, 2) {
+            let n_ev = g.rng.range(1, 6) as usize;
+            let mut budget = 6000usize;
+            for _ in 0..n_ev {
+                let (ep, cl, _, _, _) = g.rng.pick(&clusters).clone();
+                let len = match g.rng.below(4) {
+                    0 => g.rng.range(0, 60) as usize,
+                    1 => g.rng.range(400, 700) as usize,
+                    2 => g.rng.range(900, 1090) as usize,
+                    _ => g.rng.range(100, 300) as usize,
+                };
+                if len + 40 > budget {
+                    break;
+                }
+                budget -= len + 40;
+                let ts = *g.rng.pick(&[5u64, 300, 70000, 5000000000]);
+                c.e.push(format!("{}.{}.{}.{}.{}.{}", ep, cl, g.rng.range(1, 3), g.rng.below(3), len, ts));
+            }
+            c.p = match g.rng.below(4) {
+                0 => format!("{}.*.*", clusters[0].0),
+                1 => format!("{}.{}.1,{}.{}.2", clusters[0].0, clusters[0].1, clusters[0].0, clusters[0].1),
+                _ => "*.*.*".to_string(),
+            };
+            if g.rng.chance(1, 4) {
+                c.m = g.rng.range(1, 4).to_string();
+            }
+            if g.rng.chance(1, 6) {
+                c.q = String::new();
+            }
+        }
+        g.emit("r-random", &c);
+    }
+
+    std::fs::create_dir_all(outdir).unwrap();
+    std::fs::write(format!("{}/cases.txt", outdir), g.lines.join("\n") + "\n").unwrap();
+    let mut stats = String::from("{\n \"streams\": {");
+    let items: Vec<String> = g.streams.iter().map(|(k, v)| format!("\"{}\": {}", k, v)).collect();
+    stats.push_str(&items.join(", "));
+    write!(
+        stats,
+        "}},\n \"cases\": {},\n \"tx\": {},\n \"reserve\": {},\n \"max_tx_packet\": {},\n \"seed\": {}\n}}\n",
+        g.lines.len(),
+        MAX_EXCHANGE_TX_BUF_SIZE,
+        RESERVE,
+        MAX_TX_PACKET_SIZE,
+        seed
+    )
+    .unwrap();
+    std::fs::write(format!("{}/stats.json", outdir), stats).unwrap();
 }
